@@ -609,6 +609,16 @@ func (x *Xlat) builtin(st *State, fr *Frame, out *Outcomes, ce *ast.CallExpr, na
 		return nil
 	case "print", "println":
 		return nil
+	case "recover":
+		// non-nil exactly when the function is panicking (we are in a deferred call on the panic exit); stops the panic
+		r := x.ctx.Fresh("recovered", SIface)
+		pk, ok := st.env["$panicking"]
+		if !ok {
+			pk = TFalse
+		}
+		st.assume(Eq(Not(Eq(r, x.ctx.Named("iface$nil", SIface))), pk))
+		st.env["$panicking"] = TFalse
+		return []*Term{r}
 	}
 	x.unsupp(ce.Pos(), "builtin %s", name)
 	return nil
